@@ -10,14 +10,19 @@ calculus wrappers):
   `out`" check / `ValueError`, wrapping of a raw out-of-place result with `range.element`;
 * the `_call` bodies of the expression classes `OperatorSum`, `OperatorVectorSum`,
   `OperatorComp`, `OperatorPointwiseProduct`, `OperatorLeftScalarMult`,
-  `OperatorRightScalarMult`, `OperatorLeftVectorMult`, `OperatorRightVectorMult`, statement
-  for statement, temporaries included.
+  `OperatorRightScalarMult`, `OperatorLeftVectorMult`, `OperatorRightVectorMult`,
+  `FunctionalLeftVectorMult`, statement for statement, temporaries included;
+* on top of these trees, the product-space classes of `pspace_ops.py`:
+  `ProductSpaceOperator` (hence `BroadcastOperator`, `ReductionOperator`, `DiagonalOperator`,
+  which delegate to one), `ComponentProjection`, `ComponentProjectionAdjoint`; a product-space
+  element is a tuple of component objects (`Nat → Nat`, component index ↦ buffer id).
 
 Store, buffers and identity aliasing are those of `Model/ProxProg.lean`.  Leaves are abstract
 bodies (`Leaf`): two state transformers about which the theorems assume only the leaf
 contract.  `Leaf.ofProg` turns a straight-line program of `ProxProg` into an in-place leaf.
-Membership checks of the *inner* calls made by the expression classes are not modelled: the
-constructors of these classes enforce matching spaces.
+Of the membership checks of the *inner* calls made by the expression classes only the
+rejection of `out` by a functional is modelled (it is what `OperatorComp` has to avoid when its
+right factor is a functional); the constructors of these classes enforce matching spaces.
 -/
 import OdlModel.Model.ProxProg
 
@@ -38,6 +43,8 @@ inductive Err | domain | range | type | value
 
 structure Leaf (K : Type) where
   sig : Sig
+  /-- the range is a field (`is_functional`): the value is a scalar, kept at index 0 -/
+  fn : Bool
   /-- the out-of-place body returns a raw array which `__call__` wraps by `range.element` -/
   raw : Bool
   /-- the map the leaf is supposed to compute -/
@@ -57,6 +64,21 @@ inductive Op (K : Type)
   | rscal (a : Op K) (c : K)
   | lvec (a : Op K) (v : Vec K)
   | rvec (a : Op K) (v : Vec K)
+  /-- `FunctionalLeftVectorMult(functional, vector)` -/
+  | flvm (f : Op K) (v : Vec K)
+
+/-- `is_functional` of a node (the range of every expression class is that of one operand). -/
+def Op.fn {K} : Op K → Bool
+  | .leaf l => l.fn
+  | .sum a _ => a.fn
+  | .vecsum _ _ => false
+  | .comp a _ => a.fn
+  | .pwprod a _ => a.fn
+  | .lscal a _ => a.fn
+  | .rscal a _ => a.fn
+  | .lvec a _ => a.fn
+  | .rvec a _ => a.fn
+  | .flvm _ _ => false
 
 /-- Outcome of a call: an exception (with the store at that moment) or the returned object. -/
 inductive Res (K : Type)
@@ -97,8 +119,10 @@ def callO (jk : Nat → Vec K) : Op K → Nat → St K → Res K
         let (r, s3) := alloc s2 (fun i => s2.mem ra i + s2.mem rb i)
         .ok r s3
   | .vecsum a v, x, s =>
-      -- out = self.operator(x); out += self.vector; return out
-      (callO jk a x s).bind fun r s1 => .ok r (s1.write r (fun i => s1.mem r i + v i))
+      -- return self.operator(x) + self.vector      (a NEW object: operator(x) may be x itself)
+      (callO jk a x s).bind fun r s1 =>
+        let (r', s2) := alloc s1 (fun i => s1.mem r i + v i)
+        .ok r' s2
   | .comp a b, x, s =>
       -- return self.left(self.right(x))
       (callO jk b x s).bind fun rb s1 => callO jk a rb s1
@@ -124,11 +148,18 @@ def callO (jk : Nat → Vec K) : Op K → Nat → St K → Res K
       -- return self.operator(x * self.vector)
       let (t, s1) := alloc s (fun i => s.mem x i * v i)
       callO jk a t s1
+  | .flvm f v, x, s =>
+      -- return self.vector * self.functional(x)
+      (callO jk f x s).bind fun r s1 =>
+        let (r', s2) := alloc s1 (fun i => v i * s1.mem r 0)
+        .ok r' s2
 
 /-- `op(x, out=y)` for `x` in the domain and `y` in the range (`_call_in_place` + the
 "returned something other than out" check). -/
 def callI (jk : Nat → Vec K) : Op K → Nat → Nat → St K → Res K
   | .leaf l, x, y, s =>
+      -- `out` parameter cannot be used when range is a field
+      if l.fn then .err .type s else
       match l.sig with
       | .oop =>
           -- _default_call_in_place: out.assign(range.element(_call_out_of_place(x)))
@@ -145,9 +176,13 @@ def callI (jk : Nat → Vec K) : Op K → Nat → Nat → St K → Res K
   | .vecsum a v, x, y, s =>
       (callI jk a x y s).bind fun _ s1 => .ok y (s1.write y (fun i => s1.mem y i + v i))
   | .comp a b, x, y, s =>
-      -- tmp = right.range.element(); right(x, out=tmp); return left(tmp, out=out)
-      let (t, s0) := alloc s (jk s.next)
-      (callI jk b x t s0).bind fun _ s1 => callI jk a t y s1
+      if b.fn then
+        -- elif self.right.is_functional: return self.left(self.right(x), out=out)
+        (callO jk b x s).bind fun rb s1 => callI jk a rb y s1
+      else
+        -- tmp = right.range.element(); right(x, out=tmp); return left(tmp, out=out)
+        let (t, s0) := alloc s (jk s.next)
+        (callI jk b x t s0).bind fun _ s1 => callI jk a t y s1
   | .pwprod a b, x, y, s =>
       -- tmp = right.range.element(); left(x, out=tmp); right(x, out=out); out *= tmp
       let (t, s0) := alloc s (jk s.next)
@@ -169,6 +204,9 @@ def callI (jk : Nat → Vec K) : Op K → Nat → Nat → St K → Res K
       let (t, s0) := alloc s (jk s.next)
       let s1 := s0.write t (fun i => s0.mem x i * v i)
       callI jk a t y s1
+  | .flvm f v, x, y, s =>
+      -- scalar = self.functional(x); out.lincomb(scalar, self.vector)
+      (callO jk f x s).bind fun r s1 => .ok y (s1.write y (fun i => s1.mem r 0 * v i))
 
 /-- The argument `x` of the public call. -/
 inductive XArg (K : Type)
@@ -182,13 +220,12 @@ inductive OArg
   | inRange (b : Nat)
   | foreign                     -- an object that is not an element of the range
 
-/-- `Operator.__call__(x, out)`; `functional` = the range is a field. -/
-def call (jk : Nat → Vec K) (functional : Bool) (e : Op K) (x : XArg K) (o : OArg) (s : St K) :
-    Res K :=
+/-- `Operator.__call__(x, out)`. -/
+def call (jk : Nat → Vec K) (e : Op K) (x : XArg K) (o : OArg) (s : St K) : Res K :=
   let go (xb : Nat) (s1 : St K) : Res K :=
     match o with
     | .foreign => .err .range s1
-    | .inRange y => if functional then .err .type s1 else callI jk e xb y s1
+    | .inRange y => if e.fn then .err .type s1 else callI jk e xb y s1
     | .none => callO jk e xb s1
   match x with
   | .bad => .err .domain s
@@ -206,6 +243,7 @@ def den : Op K → Vec K → Vec K
   | .rscal a c, x => den a (fun i => c * x i)
   | .lvec a v, x => fun i => den a x i * v i
   | .rvec a v, x => den a (fun i => x i * v i)
+  | .flvm f v, x => fun i => v i * den f x 0
 
 end
 
@@ -217,20 +255,20 @@ variable {K : Type} [Add K] [Mul K] [OfNat K 0]
 /-- `ScalingOperator._call` / `IdentityOperator`: `out = scalar * x` | `out.lincomb(scalar, x)`;
 `return out`. -/
 def scalingLeaf (c : K) : Leaf K :=
-  { sig := .dual, raw := false, phi := fun v i => c * v i,
+  { sig := .dual, fn := false, raw := false, phi := fun v i => c * v i,
     oop := fun x s => alloc s (fun i => c * s.mem x i),
     ip := fun x y s => (.out, s.write y (fun i => c * s.mem x i)) }
 
 /-- `ConstantOperator._call`: `return range.element(copy(constant))` | `out.assign(constant)`. -/
 def constLeaf (v : Vec K) : Leaf K :=
-  { sig := .dual, raw := false, phi := fun _ => v,
+  { sig := .dual, fn := false, raw := false, phi := fun _ => v,
     oop := fun _ s => alloc s v,
     ip := fun _ y s => (.none, s.write y v) }
 
 /-- `MultiplyOperator._call` (element multiplicand): `return x * multiplicand` |
 `out.assign(multiplicand * x)` (the product is a new object). -/
 def multLeaf (v : Vec K) : Leaf K :=
-  { sig := .dual, raw := false, phi := fun x i => x i * v i,
+  { sig := .dual, fn := false, raw := false, phi := fun x i => x i * v i,
     oop := fun x s => alloc s (fun i => s.mem x i * v i),
     ip := fun x y s =>
       let (t, s1) := alloc s (fun i => v i * s.mem x i)
@@ -238,7 +276,7 @@ def multLeaf (v : Vec K) : Leaf K :=
 
 /-- `PowerOperator._call`: `return x ** p` | `out.assign(x); out **= p`. -/
 def powLeaf (pw : K → K) : Leaf K :=
-  { sig := .dual, raw := false, phi := fun x i => pw (x i),
+  { sig := .dual, fn := false, raw := false, phi := fun x i => pw (x i),
     oop := fun x s => alloc s (fun i => pw (s.mem x i)),
     ip := fun x y s =>
       let s1 := s.write y (s.mem x)
@@ -246,23 +284,142 @@ def powLeaf (pw : K → K) : Leaf K :=
 
 /-- `ZeroOperator._call` (domain == range): `out = 0 * x` | `out.lincomb(0, x)`; `return out`. -/
 def zeroLeaf : Leaf K :=
-  { sig := .dual, raw := false, phi := fun x i => 0 * x i,
+  { sig := .dual, fn := false, raw := false, phi := fun x i => 0 * x i,
     oop := fun x s => alloc s (fun i => 0 * s.mem x i),
     ip := fun x y s => (.out, s.write y (fun i => 0 * s.mem x i)) }
 
 /-- `ComplexModulusSquared._call(x)` on a real space (out-of-place only; the in-place call
 goes through `_default_call_in_place`): `return x.real ** 2 + x.imag ** 2`, `x.imag = 0`. -/
 def modSqLeaf : Leaf K :=
-  { sig := .oop, raw := false, phi := fun x i => x i * x i + 0 * 0,
+  { sig := .oop, fn := false, raw := false, phi := fun x i => x i * x i + 0 * 0,
     oop := fun x s => alloc s (fun i => s.mem x i * s.mem x i + 0 * 0),
     ip := fun _ _ s => (.other, s) }
 
+/-- Out-of-place-only functional leaf (`InnerProductOperator`, `NormOperator`, … :
+`_call(self, x)` returning a scalar); the scalar `f(x)` is kept at every index. -/
+def funcLeaf (f : Vec K → K) : Leaf K :=
+  { sig := .oop, fn := true, raw := false, phi := fun x _ => f x,
+    oop := fun x s => alloc s (fun _ => f (s.mem x)),
+    ip := fun _ _ s => (.other, s) }
+
+/-- `MultiplyOperator(v, domain=field)._call`: `return x * multiplicand` |
+`out.lincomb(x, multiplicand)` for a scalar `x` (kept at index 0 of its buffer). -/
+def scalarMultLeaf (v : Vec K) : Leaf K :=
+  { sig := .dual, fn := false, raw := false, phi := fun x i => x 0 * v i,
+    oop := fun x s => alloc s (fun i => s.mem x 0 * v i),
+    ip := fun x y s => (.none, s.write y (fun i => s.mem x 0 * v i)) }
+
 /-- Synthetic leaf for the dispatch correspondence: body `2·x`-like map `f`, any signature
 class, any return behaviour of the in-place body, raw or element out-of-place result. -/
-def synthLeaf (sg : Sig) (ret : Ret) (raw : Bool) (f : Vec K → Vec K) : Leaf K :=
-  { sig := sg, raw := raw, phi := f,
+def synthLeaf (sg : Sig) (ret : Ret) (raw : Bool) (fn : Bool) (f : Vec K → Vec K) : Leaf K :=
+  { sig := sg, fn := fn, raw := raw, phi := f,
     oop := fun x s => alloc s (f (s.mem x)),
     ip := fun x y s => (ret, s.write y (f (s.mem x))) }
+
+end
+
+/-! ### Product-space classes (`pspace_ops.py`)
+
+A product-space element is a tuple of component objects: `x : Nat → Nat` maps the component
+index to its buffer id.  The entries of the operator matrix are expression trees. -/
+
+/-- One stored block of a `ProductSpaceOperator` (`ops.row[k], ops.col[k], ops.data[k]`). -/
+structure Entry (K : Type) where
+  row : Nat
+  col : Nat
+  op : Op K
+
+/-- Outcome of a product-space call: exception, or the rows evaluated and the store. -/
+inductive PRes (K : Type)
+  | err (e : Err) (s : St K)
+  | ok (done : List Nat) (s : St K)
+
+section
+variable {K : Type} [Add K] [Mul K] [OfNat K 0]
+
+/-- `out = self.range.zero()` : `m` new component objects `s.next, …, s.next + m - 1`. -/
+def allocZeros (s : St K) (m : Nat) : St K :=
+  { mem := fun b => if s.next ≤ b ∧ b < s.next + m then (fun _ => 0) else s.mem b,
+    next := s.next + m }
+
+/-- `for i, j, op in zip(ops.row, ops.col, ops.data): out[i] += op(x[j])` -/
+def psoLoopO (jk : Nat → Vec K) (x o : Nat → Nat) : List (Entry K) → St K → PRes K
+  | [], s => .ok [] s
+  | e :: rest, s =>
+      match callO jk e.op (x e.col) s with
+      | .err er s1 => .err er s1
+      | .ok r s1 =>
+          psoLoopO jk x o rest
+            (s1.write (o e.row) (fun k => s1.mem (o e.row) k + s1.mem r k))
+
+/-- `ProductSpaceOperator._call(x)`; the result has the components `s.next + i`, `i < m`. -/
+def psoO (jk : Nat → Vec K) (m : Nat) (entries : List (Entry K)) (x : Nat → Nat) (s : St K) :
+    PRes K :=
+  psoLoopO jk x (fun i => s.next + i) entries (allocZeros s m)
+
+/-- The in-place loop with `has_evaluated_row` (`done`):
+`if not has_evaluated_row[i]: op(x[j], out=out[i]) else: out[i] += op(x[j])`. -/
+def psoLoopI (jk : Nat → Vec K) (x y : Nat → Nat) :
+    List (Entry K) → List Nat → St K → PRes K
+  | [], done, s => .ok done s
+  | e :: rest, done, s =>
+      if e.row ∈ done then
+        match callO jk e.op (x e.col) s with
+        | .err er s1 => .err er s1
+        | .ok r s1 =>
+            psoLoopI jk x y rest done
+              (s1.write (y e.row) (fun k => s1.mem (y e.row) k + s1.mem r k))
+      else
+        match callI jk e.op (x e.col) (y e.row) s with
+        | .err er s1 => .err er s1
+        | .ok _ s1 => psoLoopI jk x y rest (e.row :: done) s1
+
+/-- `for i, evaluated in enumerate(has_evaluated_row): if not evaluated: out[i].set_zero()`
+(`set_zero` writes exact zeros). -/
+def zeroRows (y : Nat → Nat) (m : Nat) (done : List Nat) (s : St K) : St K :=
+  { s with mem := fun b => if ∃ i, i < m ∧ (i ∉ done ∧ y i = b) then (fun _ => 0) else s.mem b }
+
+/-- `ProductSpaceOperator._call(x, out)`. -/
+def psoI (jk : Nat → Vec K) (m : Nat) (entries : List (Entry K)) (x y : Nat → Nat) (s : St K) :
+    PRes K :=
+  match psoLoopI jk x y entries [] s with
+  | .err er s1 => .err er s1
+  | .ok done s1 => .ok done (zeroRows y m done s1)
+
+/-- Row `i` of the value: `0 + Σ_{entries of row i, in order} ⟦op⟧(x[col])`. -/
+def rowDen (xv : Nat → Vec K) : List (Entry K) → Nat → Vec K → Vec K
+  | [], _, acc => acc
+  | e :: rest, i, acc =>
+      rowDen xv rest i (if e.row = i then (fun k => acc k + den e.op (xv e.col) k) else acc)
+
+def denPso (entries : List (Entry K)) (xv : Nat → Vec K) (i : Nat) : Vec K :=
+  rowDen xv entries i (fun _ => 0)
+
+/-- `BroadcastOperator(op_0, …)`: `prod_op` has the blocks `(i, 0, op_i)`; `_call` wraps `x`
+into a 1-tuple and delegates (`x := fun _ => xb`). -/
+def broadcastEntries (ops : List (Op K)) : List (Entry K) :=
+  (List.range ops.length).zipWith (fun i op => ⟨i, 0, op⟩) ops
+
+/-- `ReductionOperator(op_0, …)`: blocks `(0, j, op_j)`; `_call(x, out)` wraps `out` into a
+1-tuple (`y := fun _ => yb`), `_call(x)` returns component 0 of the result. -/
+def reductionEntries (ops : List (Op K)) : List (Entry K) :=
+  (List.range ops.length).zipWith (fun j op => ⟨0, j, op⟩) ops
+
+/-- `DiagonalOperator(op_0, …)`: blocks `(i, i, op_i)`. -/
+def diagonalEntries (ops : List (Op K)) : List (Entry K) :=
+  (List.range ops.length).zipWith (fun i op => ⟨i, i, op⟩) ops
+
+/-- `ComponentProjection(space, i)._call`: `out = x[i].copy()` | `out.assign(x[i])`. -/
+def compProjO (i : Nat) (x : Nat → Nat) (s : St K) : Nat × St K := alloc s (s.mem (x i))
+def compProjI (i : Nat) (x : Nat → Nat) (y : Nat) (s : St K) : St K := s.write y (s.mem (x i))
+
+/-- `ComponentProjectionAdjoint(space, i)._call`: `out = range.zero()` | `out.set_zero()`;
+then `out[i] = x`. The out-of-place result has the components `s.next + k`, `k < m`. -/
+def compProjAdjO (m i : Nat) (x : Nat) (s : St K) : St K :=
+  (allocZeros s m).write (s.next + i) (s.mem x)
+def compProjAdjI (m i : Nat) (x : Nat) (y : Nat → Nat) (s : St K) : St K :=
+  let s1 := zeroRows y m [] s
+  s1.write (y i) (s1.mem x)
 
 end
 
@@ -278,6 +435,7 @@ only `x`, `out`, its closed-over data and fresh temporaries — `C10.frame`); it
 what the aliased run leaves in `x`. -/
 def Leaf.ofProg {K} (jk : Nat → Vec K) (P : Stmt K) (d : Nat → Vec K) : Leaf K where
   sig := .ip
+  fn := false
   raw := false
   phi := fun v => (run jk P 0 0 (fun b => if b = 0 then v else d b)).mem 0
   oop := fun x s => (x, s)   -- never used: sig = ip
